@@ -342,6 +342,11 @@ class FcdWorld(au.CutWorld):
         self._fsplit_store(m, st, ref, sp, peek=c)
         return ip.boolean(False)
 
+    def str_split_off(self, m, st, s, at):
+        """input.split_off(pos): the unchanged prefix stays in the input's own buffer, the rest is what gets mapped."""
+        head, tail = self.split_at(m, st, s, at).fields
+        return Opq("buf", ("prefix",)), tail.loc[1]
+
     def replace_range(self, m, st, s, rng, content, callee):
         """input.replace_range(pos.., mapped rest): the unchanged prefix stays where it is, in the input's own
         buffer, and the mapped rest replaces everything from find's position on."""
